@@ -192,6 +192,12 @@ class AssociationValidator(BaseValidator):
                 f"Provided '{valid}' of type {type(valid)} for parameter '{name}'"
             )
 
+        if isinstance(value, str):
+            try:
+                value = UUID(value)
+            except ValueError:
+                return
+
         if isinstance(value, UUID):
             uid = value
         elif isinstance(value, (Entity, PropertyGroup)):
